@@ -2,6 +2,8 @@ package main
 
 import (
 	"errors"
+
+	"github.com/antonmedv/expr/file"
 	"fmt"
 	"strconv"
 	"strings"
@@ -30,12 +32,22 @@ const (
 	FRuntimeNil  = "runtime-nil"
 	FRuntimeIdx  = "runtime-index"
 	FPanicNil    = "panic-nil"
+	// FPanicFileErr: the callee panics with a *file.Error of its own (as a function
+	// that evaluates an inner expression and re-panics with its error would).
+	FPanicFileErr = "panic-file-error"
+	// FPanicBadErr: the callee panics with an error value whose Error method
+	// itself panics (a typed-nil pointer in an error interface).
+	FPanicBadErr = "panic-bad-error"
 	FRetNil      = "ret-nil" // only meaningful for interface{}-returning shapes; elsewhere behaves as panic-string
 	FRetStr      = "ret-str"
 )
 
-var panicFaultKinds = []string{FPanicString, FPanicError, FPanicStruct, FRuntimeNil, FRuntimeIdx, FPanicNil}
-var allFaultKinds = []string{FPanicString, FPanicError, FPanicStruct, FRuntimeNil, FRuntimeIdx, FPanicNil, FRetNil, FRetStr}
+var panicFaultKinds = []string{FPanicString, FPanicError, FPanicStruct, FRuntimeNil, FRuntimeIdx, FPanicNil, FPanicFileErr, FPanicBadErr}
+var allFaultKinds = []string{FPanicString, FPanicError, FPanicStruct, FRuntimeNil, FRuntimeIdx, FPanicNil, FPanicFileErr, FPanicBadErr, FRetNil, FRetStr}
+
+type badErr struct{ msg string }
+
+func (b *badErr) Error() string { return b.msg } // panics for a nil *badErr
 
 // CallFault fails the Idx-th call (0-based, counted over the whole life of one
 // world instance, compile phase included).
@@ -146,6 +158,12 @@ func (w *World) enter(name string, args ...interface{}) (idx int, ret string) {
 		_ = xs[pos+1] // real index-out-of-range inside the callee
 	case FPanicNil:
 		panic(nil)
+	case FPanicFileErr:
+		inner := &file.Error{Location: file.Location{Line: 1, Column: 3}, Message: "inner failure in " + name}
+		panic(inner.Bind(file.NewSource("10 % (3 - 3)")))
+	case FPanicBadErr:
+		var b *badErr
+		panic(error(b))
 	default:
 		panic("unknown fault kind " + kind)
 	}
@@ -236,6 +254,11 @@ type Env struct {
 	Any        interface{}
 	Fn         func(int) int
 	Objs       []*Obj
+	// Pm: a pointer to a map.
+	Pm *map[string]int
+	// Lvl (float64) is declared BEFORE the embedded struct whose Lvl (int) it shadows.
+	Lvl float64
+	Emb
 	// Info / Index: in the map representation these are ALSO present under the
 	// lower-case keys "info" and "index" (identifiers that begin with "in").
 	Info  bool
@@ -322,6 +345,12 @@ func (e Env) Va(xs ...interface{}) interface{} {
 		}
 	}
 	return small(sum*3) + e.w.salt(idx)
+}
+
+// Emb is embedded in Env; its Lvl field is shadowed by Env.Lvl.
+type Emb struct {
+	Lvl  int
+	EmbV int
 }
 
 // Level is a named integer type returned through interface{}.
@@ -499,6 +528,10 @@ func BuildEnv(w *World, d *EnvData) *Env {
 	if d.Ss != nil {
 		e.Ss = append([]string{}, d.Ss...)
 	}
+	pm := map[string]int{"k1": d.A, "zz": 1}
+	e.Pm = &pm
+	e.Lvl = float64(d.D%3) + 0.5
+	e.Emb = Emb{Lvl: d.D % 3, EmbV: d.C}
 	e.Info = d.P != d.Q
 	e.Index = d.K
 	e.U8 = uint8((d.A + 8) * 15)
@@ -542,7 +575,7 @@ func (e *Env) AsRep(rep string) interface{} {
 			"P": e.P, "Q": e.Q, "S": e.S, "T": e.T, "Re": e.Re,
 			"Xs": e.Xs, "Ys": e.Ys, "Ss": e.Ss, "Mp": e.Mp, "O": e.O, "On": e.On, "Any": e.Any,
 			"Fn": e.Fn, "Objs": e.Objs,
-			"Info": e.Info, "Index": e.Index, "info": e.Info, "index": e.Index, "CL": e.CL, "Tup": e.Tup, "PtrM": e.PtrM,
+			"Pm": e.Pm, "Lvl": e.Lvl, "EmbV": e.EmbV, "Info": e.Info, "Index": e.Index, "info": e.Info, "index": e.Index, "CL": e.CL, "Tup": e.Tup, "PtrM": e.PtrM,
 			"U8": e.U8, "U16": e.U16, "I8": e.I8, "I64": e.I64, "F64": e.F64, "F32": e.F32, "Ff": e.Ff,
 			"F1": e.F1, "F2": e.F2, "G0": e.G0, "P1": e.P1, "S1": e.S1, "Mk": e.Mk, "Va": e.Va,
 			"An": e.An, "OpA": e.OpA, "OpB": e.OpB, "C64": e.C64, "CI": e.CI, "CS": e.CS, "CB": e.CB,
